@@ -1314,6 +1314,99 @@ def s_mem_take(I_, st, path, c, args, t, depth):
     return [(st, old)]
 
 
+
+def _as_iter(I_, st, v):
+    it = _target(I_, st, v)
+    if it[0] != "iter":
+        r = _range_iter(it)
+        if r is not None:
+            return r
+        items = _as_items(I_, st, v)
+        if items is None:
+            return None
+        it = ("iter", "seq", (tuple(items), 0))
+    return it
+
+
+def s_flat_map(I_, st, path, c, args, t, depth):
+    it = _as_iter(I_, st, args[0])
+    if it is None:
+        return None
+    return [(st, ("iter", "flat", (("iter", "map", (it, args[1])), None)))]
+
+
+def _truth_fork(st, r):
+    """(state in which r is true, state in which r is false); None for an impossible side"""
+    if r[0] == "i":
+        return (st, None) if r[1] != 0 else (None, st)
+    key = _render(r)
+    for c in st.cond:
+        if c[0] in ("eq", "ne") and c[1] == key:
+            return (st, None) if c[0] == "ne" else (None, st)
+    s_t, s_f = st.copy(), st.copy()
+    s_t.cond = s_t.cond + (("ne", key, (0,)),)
+    s_f.cond = s_f.cond + (("eq", key, 0),)
+    return s_t, s_f
+
+
+def s_any_all(kind):
+    """Iterator::any / all over a sequence whose elements are all known: the predicate is called element by element and the path forks on its result
+    (short-circuit as std does). Unknown-length sources stay opaque."""
+    def h(I_, st, path, c, args, t, depth):
+        it = _as_iter(I_, st, args[0])
+        if it is None:
+            return None
+        items = iter_drain_static(it)
+        if items is None or any(x[0] == "splice" for x in items) or len(items) > 8:
+            return None
+        f = args[1]
+        out = []
+        work = [(st, 0)]
+        while work:
+            s, i = work.pop()
+            if i == len(items):
+                out.append((s, I(0 if kind == "any" else 1)))
+                continue
+            for (s2, r) in I_.call_value(s, f, [items[i]], t, None, depth):
+                s_t, s_f = _truth_fork(s2, r)
+                hit, cont = (s_t, s_f) if kind == "any" else (s_f, s_t)
+                if hit is not None:
+                    out.append((hit, I(1 if kind == "any" else 0)))
+                if cont is not None:
+                    work.append((cont, i + 1))
+        return out
+    return h
+
+
+def s_variant_map(kind):
+    """Result::map / map_err / and_then, Option::map / and_then: the closure is applied to the payload of the matching variant, the other variant passes through"""
+    def h(I_, st, path, c, args, t, depth):
+        ty = (t.get("atys") or [""])[0]
+        out = []
+        for (s2, v) in I_.fork_variants(st, args[0], ty):
+            if not (v[0] == "adt" and v[2] in ("Ok", "Err", "Some", "None")):
+                return None
+            hit = {"map": ("Ok", "Some"), "map_err": ("Err",), "and_then": ("Ok", "Some")}[kind]
+            if v[2] in hit:
+                for (s3, r) in I_.call_value(s2, args[1], [I_.field(v, 0)], t, None, depth):
+                    if kind == "and_then":
+                        out.append((s3, r))
+                    else:
+                        out.append((s3, adt(v[1], v[2], (r,))))
+            else:
+                out.append((s2, v))
+        return out
+    return h
+
+
+def s_ctor(variant):
+    def h(I_, st, path, c, args, t, depth):
+        if variant == "Some":
+            return [(st, some(args[0]))]
+        return [(st, ok(args[0]) if variant == "Ok" else err(args[0]))]
+    return h
+
+
 SUMMARIES = [(re.compile(rx), h) for rx, h in [
     (r"^(std|alloc)::vec::Vec::<T>::new$|^(std|alloc)::vec::Vec::<T>::with_capacity$", s_vec_new),
     (r"^(std|alloc)::vec::Vec::<T, A>::push$|^(std|alloc)::string::String::push_str$|^(std|alloc)::string::String::push$", s_vec_push),
@@ -1326,6 +1419,12 @@ SUMMARIES = [(re.compile(rx), h) for rx, h in [
     (r"Iterator>::map$|Iterator::map$", s_iter_adapter("map")),
     (r"Iterator>::rev$|Iterator::rev$", s_iter_adapter("rev")),
     (r"Iterator>::flatten$|Iterator::flatten$", s_iter_adapter("flatten")),
+    (r"Iterator>::flat_map$|Iterator::flat_map$", s_flat_map),
+    (r"Iterator>::any$|Iterator::any$", s_any_all("any")), (r"Iterator>::all$|Iterator::all$", s_any_all("all")),
+    (r"result::Result::<T, E>::map$|option::Option::<T>::map$", s_variant_map("map")),
+    (r"result::Result::<T, E>::map_err$", s_variant_map("map_err")),
+    (r"result::Result::<T, E>::and_then$|option::Option::<T>::and_then$", s_variant_map("and_then")),
+    (r"option::Option::<T>::Some$", s_ctor("Some")), (r"result::Result::<T, E>::Ok$", s_ctor("Ok")), (r"result::Result::<T, E>::Err$", s_ctor("Err")),
     (r"Iterator>::enumerate$|Iterator::enumerate$", s_iter_adapter("enumerate")),
     (r"Iterator>::(cloned|copied|by_ref|peekable|fuse)$|Iterator::(cloned|copied|by_ref|peekable|fuse)$", s_iter_adapter("cloned")),
     (r"Iterator>::next$|Iterator::next$", s_next),
